@@ -15,17 +15,17 @@ From LZ4V Require Import Proofs.DecRefineBase Proofs.DecRefineSafe Proofs.DecRef
 Import ListNotations.
 Local Open Scope Z_scope.
 
-(* proved part of [C16_partial_exact_full_statement] (Proofs/DecRefineApi.v): LZ4_FAST_DEC_LOOP
-   on or off; no dictionary or contiguous prefix of any size (64 KB-1 dispatch included).  Not
-   yet proved: the external-dictionary placement of LZ4_decompress_safe_partial_usingDict. *)
-Theorem C16_partial_exact_partial :
-  forall (fastloop : bool) (B hist D : list Z) (srcm dictm : mem) (t cap k : Z) (m0 : mem),
+(* LZ4_FAST_DEC_LOOP on or off; every history placement of LZ4_decompress_safe_partial_usingDict
+   (none, contiguous prefix of any size with the 64 KB-1 dispatch, external dictionary); k >= 0
+   arbitrary bytes may be declared after the block when t <= |D|. *)
+Theorem C16_partial_exact :
+  forall (fastloop : bool) (pl : placement) (B hist D : list Z) (srcm dictm : mem) (t cap k : Z) (m0 : mem),
     strict_valid (lastn (Z.to_nat 65536) hist) B = Some D -> bytes B -> src_at srcm 0 B ->
-    hist_placed PPrefix hist dictm m0 -> 0 <= t -> Z.min t (Z.of_nat (length D)) <= cap ->
+    hist_placed pl hist dictm m0 -> 0 <= t -> Z.min t (Z.of_nat (length D)) <= cap ->
     0 <= k -> (k = 0 \/ t <= Z.of_nat (length D)) ->
-    decodes_prefix (decompress_usingDict fastloop true srcm (Z.of_nat (length B) + k) t cap PPrefix dictm (Z.of_nat (length hist)) m0) D t.
-Proof. exact partial_exact_prefix. Qed.
-Print Assumptions C16_partial_exact_partial.
+    decodes_prefix (decompress_usingDict fastloop true srcm (Z.of_nat (length B) + k) t cap pl dictm (Z.of_nat (length hist)) m0) D t.
+Proof. exact partial_exact. Qed.
+Print Assumptions C16_partial_exact.
 
 Theorem C16_partial_exact_safe :
   forall (fastloop : bool) (B D : list Z) (srcm : mem) (t cap k : Z) (m0 : mem),
@@ -36,14 +36,14 @@ Proof. exact partial_exact_nodict. Qed.
 Print Assumptions C16_partial_exact_safe.
 
 (* declared srcSize = |B| + k with arbitrary following bytes and t <= |D|: returns t with the right prefix *)
-Theorem C16_trailing_bytes_partial :
-  forall (fastloop : bool) (B hist D : list Z) (srcm dictm : mem) (t cap k : Z) (m0 : mem),
+Theorem C16_trailing_bytes :
+  forall (fastloop : bool) (pl : placement) (B hist D : list Z) (srcm dictm : mem) (t cap k : Z) (m0 : mem),
     strict_valid (lastn (Z.to_nat 65536) hist) B = Some D -> bytes B -> src_at srcm 0 B ->
-    hist_placed PPrefix hist dictm m0 -> 0 <= t <= Z.of_nat (length D) -> t <= cap -> 0 <= k ->
-    let '(r, m, _) := decompress_usingDict fastloop true srcm (Z.of_nat (length B) + k) t cap PPrefix dictm (Z.of_nat (length hist)) m0 in
+    hist_placed pl hist dictm m0 -> 0 <= t <= Z.of_nat (length D) -> t <= cap -> 0 <= k ->
+    let '(r, m, _) := decompress_usingDict fastloop true srcm (Z.of_nat (length B) + k) t cap pl dictm (Z.of_nat (length hist)) m0 in
     r = t /\ forall i, 0 <= i < t -> get m i = nth (Z.to_nat i) D 0.
 Proof. exact partial_trailing_bytes. Qed.
-Print Assumptions C16_trailing_bytes_partial.
+Print Assumptions C16_trailing_bytes.
 
 (* Writes never go beyond min(target, capacity): every store of the model is accompanied by
    the range test [wr a n] against [0, min(target,cap)) folded into the sticky flag; the flag
